@@ -407,7 +407,11 @@ def evaluate(ctx: Ctx, scs: List[dict], procs: int = 14) -> None:
             f.count("not_compared", "blocked_write_outside_model")
             # ... but the one fact the small model HC.Worker.BlockedWrite rests on is measured here: does the handler of a blocked
             # write outlive its cancellation (Runtime.blockedWriteOutlivesCancel, extracted from both tcp_server.py)?
-            if consts is not None:
+            # (asyncio's `wait_for(gather(handlers))` is over as soon as ONE cancelled handler has finished - see
+            # Runtime.h2CancelDeadlocks - so worker_serve's return says something about this handler only when no other connection
+            # of the scenario is cancelled at the end of the grace period)
+            others_cancelled = any(k in ("long_h1", "hang_h1", "open_h2_long", "ws") for k in sc["kinds"])
+            if consts is not None and not others_cancelled:
                 T_ = trigger_instant(sc, iv, o)
                 outlived = iv["outcome"] == "stuck" or (iv["return_s"] is not None and T_ is not None and iv["return_s"] > T_ + G + S + SLACK)
                 want = consts[sc["worker"]].get("blockedWriteOutlivesCancel")
